@@ -16,7 +16,7 @@
 EXTENDS Integers, Sequences, FiniteSets, TLC
 
 Entries == {"ForecastingHorizon", "cutoff.split", "ensemble.fit", "ensemble.predict", "ensemble.update", "evaluate", "expanding.split", "make_reduction", "multiplexer.fit", "naive.fit", "naive.predict", "naive.update", "pipeline.fit", "pipeline.predict", "poly.fit", "poly.predict", "poly.update", "reduce_direct.fit", "reduce_direct.predict", "reduce_dirrec.fit", "reduce_dirrec.predict", "reduce_multioutput.fit", "reduce_multioutput.predict", "reduce_recursive.fit", "reduce_recursive.predict", "reduce_recursive.update", "sliding.split", "stacking.fit", "temporal_train_test_split", "theta.fit", "tuner.fit", "tuner.predict"}
-Faults == {"array_target", "composite_duplicate_names", "composite_empty", "composite_last_step_not_a_forecaster", "composite_member_not_a_forecaster", "composite_name_clashes_with_parameter", "composite_name_with_dunder", "composite_step_not_a_transformer", "cutoff_beyond_series", "cv_not_a_splitter", "duplicate_horizon", "empty_horizon", "empty_index", "fractional_horizon", "horizon_and_size_both_given", "horizon_differs_from_fit", "initial_window_larger_than_series", "initial_window_not_larger_than_window", "insample_horizon", "missing_horizon", "multivariate_target", "none_horizon", "scoring_not_callable", "sp_noninteger", "sp_nonpositive", "start_with_window_false", "step_noninteger", "step_nonpositive", "unknown_selected_forecaster", "unknown_strategy", "unsorted_index", "window_larger_than_series", "window_negative", "window_noninteger", "window_nonpositive", "wrongtype_horizon", "wrongtype_is_relative", "x_index_differs", "x_index_shorter", "x_index_superset"}
+Faults == {"array_target", "composite_duplicate_names", "composite_empty", "composite_last_step_not_a_forecaster", "composite_member_not_a_forecaster", "composite_name_clashes_with_parameter", "composite_name_with_dunder", "composite_step_not_a_transformer", "cutoff_beyond_series", "cv_not_a_splitter", "duplicate_horizon", "empty_horizon", "empty_index", "fractional_horizon", "horizon_and_size_both_given", "horizon_differs_from_fit", "initial_window_larger_than_series", "initial_window_not_larger_than_window", "insample_horizon", "missing_horizon", "missing_horizon_after_rejected_fit", "multivariate_target", "none_horizon", "scoring_not_callable", "sp_noninteger", "sp_nonpositive", "start_with_window_false", "step_noninteger", "step_nonpositive", "unknown_selected_forecaster", "unknown_strategy", "unsorted_index", "window_larger_than_series", "window_negative", "window_noninteger", "window_nonpositive", "wrongtype_horizon", "wrongtype_is_relative", "x_index_differs", "x_index_shorter", "x_index_superset"}
 Applicable(e) ==
     CASE e = "ForecastingHorizon" -> {"duplicate_horizon", "fractional_horizon", "none_horizon", "wrongtype_horizon", "wrongtype_is_relative"}
     [] e = "cutoff.split" -> {"cutoff_beyond_series"}
@@ -35,11 +35,11 @@ Applicable(e) ==
     [] e = "poly.fit" -> {"array_target", "duplicate_horizon", "empty_horizon", "empty_index", "fractional_horizon", "multivariate_target", "unsorted_index", "wrongtype_horizon"}
     [] e = "poly.predict" -> {"duplicate_horizon", "empty_horizon", "fractional_horizon", "missing_horizon", "wrongtype_horizon"}
     [] e = "poly.update" -> {"array_target", "multivariate_target", "unsorted_index"}
-    [] e = "reduce_direct.fit" -> {"missing_horizon"}
+    [] e = "reduce_direct.fit" -> {"missing_horizon", "missing_horizon_after_rejected_fit"}
     [] e = "reduce_direct.predict" -> {"horizon_differs_from_fit"}
-    [] e = "reduce_dirrec.fit" -> {"missing_horizon"}
+    [] e = "reduce_dirrec.fit" -> {"missing_horizon", "missing_horizon_after_rejected_fit"}
     [] e = "reduce_dirrec.predict" -> {"horizon_differs_from_fit"}
-    [] e = "reduce_multioutput.fit" -> {"missing_horizon"}
+    [] e = "reduce_multioutput.fit" -> {"missing_horizon", "missing_horizon_after_rejected_fit"}
     [] e = "reduce_multioutput.predict" -> {"horizon_differs_from_fit"}
     [] e = "reduce_recursive.fit" -> {"array_target", "duplicate_horizon", "empty_horizon", "empty_index", "fractional_horizon", "multivariate_target", "unsorted_index", "window_larger_than_series", "window_noninteger", "window_nonpositive", "wrongtype_horizon", "x_index_differs", "x_index_shorter", "x_index_superset"}
     [] e = "reduce_recursive.predict" -> {"duplicate_horizon", "empty_horizon", "fractional_horizon", "missing_horizon", "wrongtype_horizon"}
